@@ -11,12 +11,16 @@ env = dict(os.environ, VERIF_REPO=wt, VERIF_BUILD_TAG="-benign", VERIF_NO_EVIDEN
            VERIF_REPLAY_DIR="/tmp/rp_benign2", VERIF_WALL_MS=wall)
 alarms = 0
 try:
+    only = os.environ.get("BENIGN_ONLY", "").split()  # e.g. "B4 B9": restrict to these directories
+    props = os.environ.get("BENIGN_PROPS", "C01 C02 C03 C04 C05 C06 C07 C08 C09 C10 C11 C12 C13 C14 C15").split()
     for d in sorted(glob.glob("/verif/benign/B*/change*.diff")):
+        if only and d.split("/")[-2] not in only:
+            continue
         sh(f"git -C {wt} checkout -- .")
         if sh(f"git -C {wt} apply {d}").returncode != 0:
             print("DOES-NOT-APPLY", d, flush=True); continue
         bad = []
-        for p in "C01 C02 C03 C04 C05 C06 C07 C08 C09 C10 C11 C12 C13 C14 C15".split():
+        for p in props:
             r = subprocess.run(f"cd /verif && bin/verif check {p} --tier quick", shell=True, capture_output=True, text=True, env=env)
             if r.returncode != 0:
                 lines = [l for l in r.stdout.splitlines() if "class:" in l or "TROUBLE" in l or "NONDET" in l][:4]
